@@ -501,7 +501,7 @@ def strat_leaves_real(draw, tier):
 
 
 def strat_leaves(tier):
-    return scen.pyramid_cases(3 if tier == "quick" else 5)
+    return scen.pyramid_cases(3 if tier == "quick" else 5, deep_one_in=10)
 
 
 PARTS = [
@@ -528,7 +528,7 @@ PARTS = [
     Part(
         "walk_items_sim",
         exec_walk_items,
-        strategy=lambda tier: scen.pyramid_cases(4 if tier == "quick" else 5),
+        strategy=lambda tier: scen.pyramid_cases(4 if tier == "quick" else 5, deep_one_in=10),
         examples={"quick": 800, "thorough": 50000},
         shards={"quick": 16, "thorough": 16},
         budget_s={"quick": 60, "thorough": 900},
